@@ -1033,14 +1033,14 @@ func genCrash(focus, tier string, seed int64) []core.Case {
 			add(1, spec{"restarts", 1, 1, 24, 8, 1})
 			seqEvery = 24
 		} else {
-			add(24, spec{"plain", 1, 1, 40, 16, 1})
-			add(16, spec{"deep", 1, 1, 60, 16, 1})
-			add(30, spec{"plain", 0, 1, 40, 16, 1})
-			add(10, spec{"plain", 0, 3, 20, 16, 1})
-			add(12, spec{"closepending", 0, 1, 24, 16, 1})
-			add(8, spec{"bigtxn", 1, 1, 24, 16, 1})
-			add(10, spec{"restarts", 1, 1, 40, 16, 1})
-			seqEvery, depth3 = 6, 1
+			add(6, spec{"plain", 1, 1, 40, 16, 1})
+			add(5, spec{"deep", 1, 1, 60, 16, 1})
+			add(6, spec{"plain", 0, 1, 40, 16, 1})
+			add(3, spec{"plain", 0, 3, 20, 16, 1})
+			add(4, spec{"closepending", 0, 1, 24, 16, 1})
+			add(3, spec{"bigtxn", 1, 1, 24, 16, 1})
+			add(4, spec{"restarts", 1, 1, 40, 16, 1})
+			seqEvery, depth3 = 8, 1
 		}
 	case "C04":
 		if quick {
@@ -1050,12 +1050,12 @@ func genCrash(focus, tier string, seed int64) []core.Case {
 			add(1, spec{"multikey", 0, 1, 22, 8, 2})
 			add(1, spec{"multikey", 0, 2, 12, 8, 2})
 		} else {
-			add(30, spec{"multikey", 1, 1, 40, 16, 1})
-			add(12, spec{"bigtxn", 1, 1, 30, 16, 1})
-			add(6, spec{"bigtxn", 0, 2, 16, 16, 1})
-			add(12, spec{"deep", 1, 1, 60, 16, 1})
-			add(30, spec{"multikey", 0, 1, 40, 16, 1})
-			add(10, spec{"multikey", 0, 3, 20, 16, 1})
+			add(8, spec{"multikey", 1, 1, 40, 16, 1})
+			add(4, spec{"bigtxn", 1, 1, 30, 16, 1})
+			add(2, spec{"bigtxn", 0, 2, 16, 16, 1})
+			add(4, spec{"deep", 1, 1, 60, 16, 1})
+			add(6, spec{"multikey", 0, 1, 40, 16, 1})
+			add(3, spec{"multikey", 0, 3, 20, 16, 1})
 		}
 	case "C14":
 		if quick {
@@ -1063,17 +1063,21 @@ func genCrash(focus, tier string, seed int64) []core.Case {
 			add(1, spec{"multikey", 1, 1, 12, 8, 1})
 			add(1, spec{"plain", 0, 1, 16, 8, 2})
 		} else {
-			add(30, spec{"plain", 1, 1, 40, 16, 1})
-			add(10, spec{"multikey", 1, 1, 30, 16, 1})
-			add(10, spec{"deep", 1, 1, 40, 16, 1})
-			add(20, spec{"plain", 0, 1, 40, 16, 1})
-			add(6, spec{"bigtxn", 1, 1, 20, 16, 1})
+			add(8, spec{"plain", 1, 1, 30, 16, 1})
+			add(3, spec{"multikey", 1, 1, 24, 16, 1})
+			add(3, spec{"deep", 1, 1, 36, 16, 1})
+			add(5, spec{"plain", 0, 1, 30, 16, 1})
+			add(3, spec{"bigtxn", 1, 1, 16, 16, 1})
 		}
 	}
 	r := rand.New(rand.NewSource(seed*2038074743 + int64(focus[2])))
 	var cs []core.Case
+	only := os.Getenv("VERIF_FLAVOUR") // development aid: restrict the programs to one flavour
 	for pi, s := range specs {
 		pseed := r.Int63()
+		if only != "" && s.flavour != only {
+			continue
+		}
 		for off := 0; off < s.stride; off += s.every {
 			c := core.Case{ID: fmt.Sprintf("p%02d-o%02d", pi, off), Kind: "crash", Seed: pseed,
 				S: map[string]string{"flavour": s.flavour},
@@ -1082,7 +1086,7 @@ func genCrash(focus, tier string, seed int64) []core.Case {
 				c.N["images"] = 1
 				c.N["seqevery"] = 16
 				if !quick {
-					c.N["seqevery"] = 5
+					c.N["seqevery"] = 8
 				}
 				if !quick {
 					c.N["dense"] = 1
@@ -1187,12 +1191,12 @@ func init() {
 	common := "a workload process executes a seeded program (20-60 transactions of 1-6 Set/Delete with unique values, thresholds that force rotation, flush and compaction every few commits; drained = the flusher is awaited after each commit so the operation sequence is deterministic, free-running = flusher concurrent, 1-3 writers with disjoint keys) and is killed with os.Exit inside the hook before its N-th mutating file-system operation (create/write/fsync/rename/remove of wal and table files); every N of the program is enumerated (cases partition N by residue class; quick samples every second class of free-running programs); a fresh process recovers, reads every key, commits to every key, closes, reopens and reads again; oracle = acknowledgement log written outside the database directory (CALL before Update, ACK after it returned nil)"
 	core.Register(&core.Check{
 		Prop: "C03", Level: "fault_enumeration",
-		Rule: common + "; acknowledged writes must be visible, keys of the commit in flight old or new, no alien values, Open must succeed, post-recovery commits retained; at every 6th (thorough) / 24th (quick) crash point the recovery is itself killed before each of its operations and recovered again (thorough: a third crash inside the second recovery); evidence counts crash points and sequences (evaluations), all distinct by (program, kill index[, recovery kill indices]); non-trivial = the kill actually happened and the recovery was judged",
+		Rule: common + "; acknowledged writes must be visible, keys of the commit in flight old or new, no alien values, Open must succeed, post-recovery commits retained; at every 8th (thorough) / 24th (quick) crash point the recovery is itself killed before each of its operations and recovered again (thorough: a third crash inside the second recovery); evidence counts crash points and sequences (evaluations), all distinct by (program, kill index[, recovery kill indices]); non-trivial = the kill actually happened and the recovery was judged",
 		Gen:      func(tier string, seed int64) []core.Case { return genCrash("C03", tier, seed) },
 		Run:      func(c core.Case) core.Result { return runCrashCase(c, "C03") },
 		Post:     crashPost("C03"),
 		SelfTest: crashSelfTest, BatchSize: 2, GoMaxProcs: 2, Parallel: 10, CaseTimeout: 600e9,
-		MinNonTrivial: map[string]int{"quick": 15, "thorough": 400},
+		MinNonTrivial: map[string]int{"quick": 15, "thorough": 200},
 		Exhaustive:    func(tier string) bool { return false },
 		Assumptions: []string{"process-crash model: every completed file-system operation persists; an operation in flight in another goroutine at the kill may or may not have completed",
 			"kill points are the hooked operations of wal.go and level.go (verified to be all mutating operations of the engine by reading the code)",
@@ -1205,17 +1209,17 @@ func init() {
 		Run:      func(c core.Case) core.Result { return runCrashCase(c, "C04") },
 		Post:     crashPost("C04"),
 		SelfTest: crashSelfTest, BatchSize: 2, GoMaxProcs: 2, Parallel: 10, CaseTimeout: 600e9,
-		MinNonTrivial: map[string]int{"quick": 15, "thorough": 400},
+		MinNonTrivial: map[string]int{"quick": 15, "thorough": 200},
 		Assumptions:   []string{"process-crash model as C03", "transactions acknowledged before the crash are all-or-nothing by the C03 rule (all of their writes visible)"},
 	})
 	core.Register(&core.Check{
 		Prop: "C14", Level: "fault_enumeration",
-		Rule: common + "; the hook handler tracks the fsynced length of every file (rename carries it over); at every crash point that has a file with bytes beyond its synced length, images are built in which that file is cut to every length in [synced, size) (gap <= 64 bytes, thorough <= 400) or to {synced, +1, +7..9, middle, -9, -8, -1}, plus one image with all such files cut to their synced length; each image is recovered and judged like C03 without the atomicity rule; at every 16th (quick) / 5th (thorough) crash point the recovery is additionally killed before each of its own operations and the tails left unsynced by the recovery are cut; evidence counts crash points plus images (evaluations); non-trivial = image in which >=1 byte was actually cut; distinct by (program, kill index, file, cut length)",
+		Rule: common + "; the hook handler tracks the fsynced length of every file (rename carries it over); at every crash point that has a file with bytes beyond its synced length, images are built in which that file is cut to every length in [synced, size) (gap <= 64 bytes, thorough <= 400) or to {synced, +1, +7..9, middle, -9, -8, -1}, plus one image with all such files cut to their synced length; each image is recovered and judged like C03 without the atomicity rule; at every 16th (quick) / 8th (thorough) crash point the recovery is additionally killed before each of its own operations and the tails left unsynced by the recovery are cut; evidence counts crash points plus images (evaluations); non-trivial = image in which >=1 byte was actually cut; distinct by (program, kill index, file, cut length)",
 		Gen:      func(tier string, seed int64) []core.Case { return genCrash("C14", tier, seed) },
 		Run:      func(c core.Case) core.Result { return runCrashCase(c, "C14") },
 		Post:     crashPost("C14"),
 		SelfTest: crashSelfTest, BatchSize: 2, GoMaxProcs: 2, Parallel: 10, CaseTimeout: 600e9,
-		MinNonTrivial: map[string]int{"quick": 10, "thorough": 300},
+		MinNonTrivial: map[string]int{"quick": 10, "thorough": 150},
 		Assumptions:   []string{"truncation of unsynced suffixes only (no bit rot, no reordering of directory operations: create/rename/remove are ordered and durable)", "a file's synced length is its size at its last fsync"},
 	})
 }
